@@ -45,6 +45,9 @@ func newContext() *runtime {
 	rt.newContext()
 
 	rt.eval = rt.globalObject.property["eval"].value.(Value).value.(*object)
+	// Date.prototype.toGMTString is the same Function object as toUTCString (B.2.6).
+	datePrototype := rt.global.DatePrototype
+	datePrototype.property["toGMTString"] = datePrototype.property["toUTCString"]
 	rt.globalObject.prototype = rt.global.ObjectPrototype
 
 	return rt
